@@ -206,7 +206,21 @@ pub mod novasmt_db {
     impl Default for InMemoryCas { #[verifier::external_body] fn default() -> (r: InMemoryCas) { unimplemented!() } }
     /// novasmt::dense::DenseMerkleTree (TIP-908 transactions root): only its root is observed
     #[verifier::external_body] pub struct DenseMerkleTree { _p: u8 }
-    impl DenseMerkleTree { pub uninterp spec fn root(&self) -> [u8; 32]; #[verifier::external_body] pub fn root_hash(&self) -> (r: [u8; 32]) ensures r == self.root() { unimplemented!() } }
+    /// the byte strings of a vector of byte vectors; the set of elements of a sequence
+    pub open spec fn vecs_view(s: Seq<Vec<u8>>) -> Seq<Seq<u8>> { Seq::new(s.len(), |i: int| s[i]@) }
+    pub open spec fn seq_iset<T>(s: Seq<T>) -> ISet<T> { ISet::new(|x: T| s.contains(x)) }
+    pub uninterp spec fn bytes_sorted(s: Seq<Seq<u8>>) -> bool;       // ascending in Vec<u8>'s lexicographic Ord
+    /// A-DENSE: the root of the dense Merkle tree over a sorted, duplicate-free list of leaves is a function of the SET of leaves (such a list is unique)
+    pub uninterp spec fn dense_root_set(leaves: ISet<Seq<u8>>) -> [u8; 32];
+    impl DenseMerkleTree { pub uninterp spec fn root(&self) -> [u8; 32]; #[verifier::external_body] pub fn root_hash(&self) -> (r: [u8; 32]) ensures r == self.root() { unimplemented!() }
+        #[verifier::external_body]
+        pub fn new(v: &Vec<Vec<u8>>) -> (r: DenseMerkleTree) ensures bytes_sorted(vecs_view(v@)) && vecs_view(v@).no_duplicates() ==> r.root() == dense_root_set(seq_iset(vecs_view(v@))) { unimplemented!() } }
+    /// A-SORT (declared substitution for `vv.sort_unstable()`): sorting permutes: same elements, duplicates neither created nor removed
+    #[verifier::external_body]
+    pub fn sort_unstable_bytes(v: &mut Vec<Vec<u8>>)
+        ensures bytes_sorted(vecs_view(final(v)@)), final(v)@.len() == old(v)@.len(), seq_iset(vecs_view(final(v)@)) == seq_iset(vecs_view(old(v)@)),
+                vecs_view(old(v)@).no_duplicates() ==> vecs_view(final(v)@).no_duplicates()
+    { unimplemented!() }
     impl<C: ContentAddrStore> Database<C> {
         /// every store holds the empty tree (all-zero root)
         #[verifier::external_body]
@@ -218,6 +232,6 @@ pub mod novasmt_db {
         { unimplemented!() }
     }
 }
-pub use novasmt_db::{Database, InMemoryCas, DenseMerkleTree};
+pub use novasmt_db::{Database, InMemoryCas, DenseMerkleTree, vecs_view, seq_iset, bytes_sorted, dense_root_set, sort_unstable_bytes};
 /// `<[u8; 32] as Default>::default()` (declared substitution): the all-zero root of the empty tree
 #[verifier::external_body] pub fn zero_root() -> (r: [u8; 32]) ensures r@ == Seq::new(32, |i: int| 0u8) { unimplemented!() }
